@@ -19,6 +19,7 @@ package main
 
 import (
 	"fmt"
+	"reflect"
 	"strings"
 
 	"github.com/yandex/pandora/core/config"
@@ -143,6 +144,23 @@ func runReg(f []string) string {
 		}
 		return "registered"
 	}
+	if what == "setdefault" {
+		// plugin.SetDefaultRegistry: the package-level Register / New work on the registry that was set
+		old := plugin.DefaultRegistry()
+		fresh := plugin.NewRegistry()
+		plugin.SetDefaultRegistry(fresh)
+		defer plugin.SetDefaultRegistry(old)
+		plugin.Register(ifaceT, "x", r.constructor("P", "P", implT), r.defaultFn("P", "V"))
+		out := guarded(func() string { return describe(plugin.New(ifaceT, "x", r.fill)) })
+		res := "new | " + r.take() + " => " + out
+		oldOut := guarded(func() string {
+			if _, err := old.New(ifaceT, "x"); err != nil {
+				return "err:lookup"
+			}
+			return "ok"
+		})
+		return res + " ; default=" + vh.B(plugin.DefaultRegistry() == fresh) + " old=" + oldOut
+	}
 	reg := plugin.NewRegistry()
 	if what == "noname" {
 		reg.Register(ifaceT, "x", r.constructor("P", "P", implT), r.defaultFn("P", "V"))
@@ -205,6 +223,92 @@ func genSecs(r *vh.Rand, tier string) []string {
 			out = append(out, fmt.Sprintf("reg %s %s", what, req))
 		}
 	}
-	out = append(out, "reg ptrtype N")
+	out = append(out, "reg ptrtype N", "reg setdefault N")
+	for _, t := range goTypeNames {
+		for _, registered := range []string{"0", "1"} {
+			for _, name := range []string{"x", "y"} {
+				out = append(out, fmt.Sprintf("ftype %s %s %s", t, registered, name))
+			}
+		}
+	}
 	return out
+}
+
+// ftype <type> <registered 0|1> <name x|y>
+//
+// Which Go types the registry takes as requested factory forms: plugin.FactoryPluginType,
+// Registry.LookupFactory and Registry.NewFactory for func types of every arity / result kind, on a
+// registry that holds (Iface, "x") or nothing.
+type Other interface{ Other() }
+
+var goTypeNames = []string{"f0", "f1", "g0", "g1", "impl", "int2", "in1", "in1e", "three", "none", "notfunc", "iface", "err0", "err1", "other0", "other1", "errfirst"}
+
+var goTypes = map[string]reflect.Type{
+	"f0":       reflect.TypeOf((func() Iface)(nil)),
+	"f1":       reflect.TypeOf((func() (Iface, error))(nil)),
+	"g0":       namedF0T,
+	"g1":       namedF1T,
+	"impl":     reflect.TypeOf((func() *Impl)(nil)),
+	"int2":     reflect.TypeOf((func() (Iface, int))(nil)),
+	"in1":      reflect.TypeOf((func(int) Iface)(nil)),
+	"in1e":     reflect.TypeOf((func(int) (Iface, error))(nil)),
+	"three":    reflect.TypeOf((func() (Iface, error, error))(nil)),
+	"none":     reflect.TypeOf((func())(nil)),
+	"notfunc":  reflect.TypeOf(0),
+	"iface":    ifaceT,
+	"err0":     reflect.TypeOf((func() error)(nil)),
+	"err1":     reflect.TypeOf((func() (error, error))(nil)),
+	"other0":   reflect.TypeOf((func() Other)(nil)),
+	"other1":   reflect.TypeOf((func() (Other, error))(nil)),
+	"errfirst": reflect.TypeOf((func() (error, Iface))(nil)),
+}
+
+func runFtype(f []string) string {
+	if len(f) != 4 {
+		return "unknown-case"
+	}
+	t, ok := goTypes[f[1]]
+	if !ok {
+		return "unknown-case"
+	}
+	r := &rec{cerr: true, ffail: map[int]bool{}, cfail: map[int]bool{}, pfail: map[int]bool{}}
+	reg := plugin.NewRegistry()
+	if f[2] == "1" {
+		reg.Register(ifaceT, "x", r.constructor("P", "P", implT), r.defaultFn("P", "V"))
+	}
+	fpt := guarded(func() string {
+		pt, ok := plugin.FactoryPluginType(t)
+		if !ok {
+			if pt != nil {
+				return "0:?"
+			}
+			return "0:-"
+		}
+		switch pt {
+		case ifaceT:
+			return "1:I"
+		case errT:
+			return "1:E"
+		case reflect.TypeOf((*Other)(nil)).Elem():
+			return "1:O"
+		}
+		return "1:?"
+	})
+	lookup := guarded(func() string { return vh.B(reg.LookupFactory(t)) })
+	nf := func() (out string) {
+		defer func() {
+			if recover() != nil {
+				out = "panic"
+			}
+		}()
+		fac, err := reg.NewFactory(t, f[3], r.fill)
+		if err != nil {
+			return "err:lookup"
+		}
+		if reflect.TypeOf(fac) != t {
+			return fmt.Sprintf("wrongtype:%T", fac)
+		}
+		return "ok"
+	}()
+	return "fpt=" + fpt + " lookup=" + lookup + " nf=" + nf
 }
